@@ -1,5 +1,6 @@
 #include <symengine/visitor.h>
 #include <symengine/basic.h>
+#include <symengine/number.h>
 
 namespace SymEngine
 {
@@ -98,7 +99,12 @@ public:
         exp_ = x.get_exp();
         apply(*x.get_base());
 
-        if (eq(**imag_, *zero)) {
+        // a real base gives a real power only for an integer exponent, or
+        // for a nonnegative base and a real exponent
+        if (eq(**imag_, *zero)
+            and (is_a<Integer>(*exp_)
+                 or (is_true(is_nonnegative(**real_))
+                     and is_true(is_real(*exp_))))) {
             *real_ = x.rcp_from_this();
             *imag_ = zero;
             return;
